@@ -4042,3 +4042,145 @@ func ruleKVGetAbsenceIsNil(r *Report, rule string) {
 		undecidedf("KV Get absence rule matched %d tests", n)
 	}
 }
+
+// ruleLoopScratchBufferReset (K5): a bytes.Buffer that is declared OUTSIDE a
+// loop and, inside the loop, both filled (Write*/WriteTo(&buf)/Fprintf(&buf))
+// and read (Bytes/String/Len) carries the previous iteration's bytes unless it
+// is Reset() in the loop before it is filled.  (Declared inside the loop it is
+// fresh each time.)  Serialising per-segment data with a stale prefix stores
+// "first item ++ second item ..." for the second item.
+func ruleLoopScratchBufferReset(r *Report, rule string, pkgs ...string) {
+	p := r.P
+	n := 0
+	for _, pk := range pkgs {
+		for _, fi := range p.funcsInPkg(pk) {
+			if fi.Decl.Body == nil {
+				continue
+			}
+			info := fi.Pkg.TypesInfo
+			// bytes.Buffer locals
+			bufs := map[types.Object]bool{}
+			ast.Inspect(fi.Decl.Body, func(x ast.Node) bool {
+				if id, ok := x.(*ast.Ident); ok {
+					if v, ok := info.Defs[id].(*types.Var); ok && !v.IsField() && v.Type().String() == "bytes.Buffer" {
+						bufs[v] = true
+					}
+				}
+				return true
+			})
+			for b := range bufs {
+				ast.Inspect(fi.Decl.Body, func(x ast.Node) bool {
+					var body *ast.BlockStmt
+					switch l := x.(type) {
+					case *ast.ForStmt:
+						body = l.Body
+					case *ast.RangeStmt:
+						body = l.Body
+					}
+					if body == nil || (b.Pos() >= body.Pos() && b.Pos() <= body.End()) {
+						return true // declared inside this loop (or not a loop)
+					}
+					var reads, writes, resets []ast.Node
+					inspectNoLit(body, func(y ast.Node) bool {
+						switch c := y.(type) {
+						case *ast.CallExpr:
+							if sel, ok := ast.Unparen(c.Fun).(*ast.SelectorExpr); ok && objOf(info, sel.X) == b {
+								switch sel.Sel.Name {
+								case "Bytes", "String", "Len":
+									reads = append(reads, c)
+								case "Reset", "Truncate":
+									resets = append(resets, c)
+								default:
+									if strings.HasPrefix(sel.Sel.Name, "Write") || sel.Sel.Name == "ReadFrom" {
+										writes = append(writes, c)
+									}
+								}
+							}
+							for _, a := range c.Args {
+								if u, ok := ast.Unparen(a).(*ast.UnaryExpr); ok && u.Op == token.AND && objOf(info, u.X) == b {
+									writes = append(writes, c) // handed to a writer (x.WriteTo(&buf), fmt.Fprintf(&buf, ..))
+								}
+							}
+						}
+						return true
+					})
+					if len(reads) == 0 || len(writes) == 0 {
+						return true
+					}
+					n++
+					r.Fn(fi)
+					g := buildCFG(info, innermostFuncBody(fi.Decl, body))
+					ok := false
+					for _, rs := range resets {
+						all := true
+						for _, w := range writes {
+							if !g.DominatesNode(rs, w) && !(rs.Pos() < w.Pos()) {
+								all = false
+							}
+						}
+						if all {
+							ok = true
+						}
+					}
+					r.Ob(rule, fi.Name+"/"+b.Name()+"-reset-each-iteration", writes[0].Pos(), ok, "bytes.Buffer "+b.Name()+" lives across iterations of this loop, is filled and read in every iteration, but is not Reset() before being filled: from the second iteration on its contents start with the previous iterations' bytes")
+					return true
+				})
+			}
+		}
+	}
+	// zero sites today is the expected state (buffers are declared inside their loops); the rule is kept alive by a
+	// positive control below
+	if n == 0 {
+		r.InfoOb(rule, "no-loop-carried-buffer", 0, "no bytes.Buffer declared outside a loop is filled and read inside it (checked packages: "+strings.Join(pkgs, ", ")+")")
+	}
+}
+
+// ruleRangeBoundsAreOpaqueBits (K7): the float64 bounds of NewNumericRangeSearcher
+// are bit patterns, not numbers: date queries pass UnixNano reinterpreted as
+// float64 (numeric.Int64ToFloat64), which yields NaN and denormal patterns for
+// legitimate timestamps.  The searcher may only nil-test the pointers and hand
+// the dereferenced value to numeric.Float64ToInt64; any float predicate or
+// arithmetic on them (math.IsNaN, comparisons, Nextafter, ...) misreads dates.
+func ruleRangeBoundsAreOpaqueBits(r *Report, rule string) {
+	p := r.P
+	fi := p.MustFunc("search/searcher.NewNumericRangeSearcher")
+	r.Fn(fi)
+	info := fi.Pkg.TypesInfo
+	sig := fi.Obj.Type().(*types.Signature)
+	bounds := map[types.Object]bool{}
+	for i := 0; i < sig.Params().Len(); i++ {
+		if sig.Params().At(i).Type().String() == "*float64" {
+			bounds[sig.Params().At(i)] = true
+		}
+	}
+	if len(bounds) != 2 {
+		undecidedf("%s: expected two *float64 bounds", fi.Name)
+	}
+	n := 0
+	ast.Inspect(fi.Decl.Body, func(x ast.Node) bool {
+		st, ok := x.(*ast.StarExpr)
+		if !ok || !bounds[objOf(info, st.X)] {
+			return true
+		}
+		n++
+		ok2 := false
+		anc := enclosing(fi.Decl.Body, st)
+		// innermost enclosing call must be Float64ToInt64 with the deref as its direct argument
+		for i := len(anc) - 2; i >= 0; i-- { // anc ends with the node itself
+			if c, isCall := anc[i].(*ast.CallExpr); isCall {
+				if f := callee(info, c); f != nil && f.Name() == "Float64ToInt64" && len(c.Args) == 1 && ast.Unparen(c.Args[0]) == ast.Expr(st) {
+					ok2 = true
+				}
+				break
+			}
+			if _, isParen := anc[i].(*ast.ParenExpr); !isParen {
+				break
+			}
+		}
+		r.Ob(rule, fi.Name+"/"+exprStr(st)+"-only-converted-to-its-int64-code", st.Pos(), ok2, "the bound "+exprStr(st)+" is used as a number (float predicate, comparison or arithmetic) instead of being handed straight to numeric.Float64ToInt64: date bounds arrive as int64 nanoseconds reinterpreted as float64, for which NaN/Inf/ordering tests are meaningless (timestamps after 2262-02-18 are NaN bit patterns)")
+		return true
+	})
+	if n < 2 {
+		undecidedf("%s: bounds are never dereferenced", fi.Name)
+	}
+}
